@@ -46,6 +46,7 @@ def project(files, agg):
 
     cb = Codebase("/root")
     fresh = ScanTotals()
+    early = None
     fileprof_ok = True
     for n, (path, lang, lens) in enumerate(files):
         # checksum and function names are functions of the content: two files with the same language and
@@ -55,6 +56,8 @@ def project(files, agg):
         fileprof_ok = fileprof_ok and sum(e.profile()) == e.loc
         cb.add_file(e)
         fresh.add(e)
+        if n == 0:
+            early = ReportWriter(Report(cb))  # a writer made while the codebase is still growing
     if agg:
         cb.aggregate()
     tree = []
@@ -70,6 +73,20 @@ def project(files, agg):
     doc_tree = [[key_of(k), [["folder", n[:-1]] if n.endswith("/") else ["file", n] for n in v["entries"]], v["profile"]] for k, v in doc["tree"].items()]
     doc_tot = [[l, v["files"], v["lines_of_code"], v["functions"], v["hard_to_maintain"], v["unmaintainable"]] for l, v in doc["totals"].items()]
     doc_same = doc_tree == tree and doc_tot == totals and list(doc["files"]) == ordered
+    # whatever the early writer emits (the codebase as it is now, or as it was when the writer was made) is ONE codebase:
+    # its totals section agrees with its own files section, and its tree lists exactly those files
+    if early is not None:
+        ed = json.loads(early.to_json())["codebase"]
+        want = {}
+        for f in ed["files"].values():
+            t = want.setdefault(f["language"], {"files": 0, "lines_of_code": 0, "functions": 0, "hard_to_maintain": 0, "unmaintainable": 0})
+            t["files"] += 1
+            t["lines_of_code"] += f["loc"]
+            t["functions"] += len(f["measurements"])
+            t["hard_to_maintain"] += sum(1 for m in f["measurements"] if 30 < m["value"] <= 60)
+            t["unmaintainable"] += sum(1 for m in f["measurements"] if m["value"] > 60)
+        listed = sorted(("" if k in ("./", ".") else k) + n for k, v in ed["tree"].items() for n in v["entries"] if not n.endswith("/"))
+        doc_same = doc_same and ed["totals"] == want and listed == sorted(ed["files"])
     return {"tree": tree, "totals": totals, "grand": grand, "order": ordered, "fileprof_ok": fileprof_ok, "doc_same": doc_same}
 
 
